@@ -414,6 +414,10 @@ impl Ctx {
         let choice = match &self.strategy {
             Strategy::Random { stay } => {
                 let stay = if me_runnable { *stay } else { 0 };
+                // `stay: 100` means "never pre-empt inside the PDU loop" (history-level runs); a
+                // scheduling point the harness asks for itself (site 0) is between operations and
+                // stays a real choice.
+                let stay = if stay == 100 && site == 0 { 50 } else { stay };
                 if stay > 0 {
                     self.tape.choose_biased(runnable.len(), stay, 100, "sched")
                 } else {
